@@ -40,7 +40,7 @@ LEAN_TY = {"Nat": "Nat", "Int": "Int", "Bool": "Bool", "OptNat": "Option Nat", "
            "TokPair": "PM.Token × PM.Token", "NumRet": "Nat × PM.Ymd × PM.Res",
            "StepRet": "List PM.Token × Nat × PM.Res × PM.Ymd × List Nat", "OptFloat": "Option Unit", "IntStr": "Int", "DT": "DT", "Repl": "PPy.Repl", "OptBool": "Option Bool", "Str": "List Char",
            "ParseRet": "Option (PM.Res × Option (List PM.Token))", "OptRes": "Option PM.Res", "OptToks": "Option (List PM.Token)",
-           "ADt": "PPy.ADt", "ResultA": "PM.ResultA", "TzInfos": "PM.TzInfos", "DecimalV": "PPy.DecimalV", "FoldDt": "PPy.FoldDt"}
+           "ADt": "PPy.ADt", "TzData": "PM.TzData", "TzObj": "PPy.TzObj", "ResultA": "PM.ResultA", "TzInfos": "PM.TzInfos", "DecimalV": "PPy.DecimalV", "FoldDt": "PPy.FoldDt"}
 PAIR_TYPES = {"NatPair": ("Nat", "Nat"), "NatOptPair": ("Nat", "OptNat"), "TokPair": ("Tok", "Tok")}
 # (methods of `parser` that are themselves translated: PARSER_METHODS below)
 
@@ -135,6 +135,8 @@ class Tr:
             x = self.fresh("v")
             pre.append((x, "PPy.optNat %s" % t, "Nat"))
             return x
+        if want == "TzObj" and ty == "TzData":
+            return "(PPy.TzObj.data %s)" % t                      # a tzinfo instance or None, handed on as it is
         if want == "Res" and ty == "OptRes" and pre is not None:
             x = self.fresh("v")
             pre.append((x, "PPy.optRes %s" % t, "Res"))
@@ -425,6 +427,21 @@ class Tr:
                 if ty in ("Tok", "IntStr"): return "true", "StaticBool"
                 if ty in ("Dec", "Nat", "Int"): return "false", "StaticBool"
                 raise Untranslatable("hasattr(%s, '__len__')" % ty)
+            if n == "callable" and len(e.args) == 1:
+                t, ty = self.E(e.args[0], pre)
+                if ty != "TzInfos": raise Untranslatable("callable(%s)" % ty)
+                return "(PPy.tziCallable %s)" % t, "Bool"
+            if n in self.types and self.types[n] == "TzInfos" and len(e.args) == 2 and not e.keywords:
+                a, ta = self.E(e.args[0], pre); b, tb = self.E(e.args[1], pre)
+                x = self.fresh("td")
+                pre.append((x, "PPy.tziCall %s %s %s" % (n, self.coerce(a, ta, "OptTok", pre), self.coerce(b, tb, "OptInt", pre)), "TzData"))
+                return x, "TzData"
+            if n == "isinstance" and len(e.args) == 2:
+                t, ty = self.E(e.args[0], pre)
+                k2 = ast.unparse(e.args[1])
+                fnm = {"datetime.tzinfo": "isTzinfoObj", "text_type": "isText", "integer_types": "isInt"}.get(k2)
+                if ty != "TzData" or fnm is None: raise Untranslatable("isinstance(%s, %s)" % (ty, k2))
+                return "(PPy.%s %s)" % (fnm, t), "Bool"
             if n == "sorted" and len(e.args) == 1 and not e.keywords:
                 t, ty = self.E(e.args[0], pre)
                 if ty != "NatList": raise Untranslatable("sorted(%s)" % ty)
@@ -452,6 +469,24 @@ class Tr:
             if n == "range" and len(e.args) == 1 and isinstance(e.args[0], ast.Constant) and isinstance(e.args[0].value, int):
                 return "(List.range %d)" % e.args[0].value, "NatList"
             raise Untranslatable("call %s" % n)
+        if isinstance(f, ast.Attribute) and ast.unparse(f) == "tz.tzstr" and len(e.args) == 1:
+            a, ta = self.E(e.args[0], pre)
+            if ta != "TzData": raise Untranslatable("tz.tzstr(%s)" % ta)
+            x = self.fresh("z")
+            pre.append((x, "PPy.mkTzstr %s" % a, "TzObj"))          # the constructor may raise (C08's model of the TZ-string parser)
+            return x, "TzObj"
+        if isinstance(f, ast.Attribute) and ast.unparse(f) == "tz.tzoffset" and len(e.args) == 2:
+            a, ta = self.E(e.args[0], pre); b, tb = self.E(e.args[1], pre)
+            if tb != "TzData": raise Untranslatable("tz.tzoffset(_, %s)" % tb)
+            x = self.fresh("z")
+            pre.append((x, "PPy.mkTzoffset %s %s" % (self.coerce(a, ta, "OptTok", pre), b), "TzObj"))
+            return x, "TzObj"
+        if isinstance(f, ast.Attribute) and isinstance(f.value, ast.Name) and self.types.get(f.value.id) == "TzInfos" \
+                and f.attr == "get" and len(e.args) == 1:
+            a, ta = self.E(e.args[0], pre)
+            x = self.fresh("td")
+            pre.append((x, "PPy.tziGet %s %s" % (f.value.id, self.coerce(a, ta, "OptTok", pre)), "TzData"))
+            return x, "TzData"
         if isinstance(f, ast.Attribute) and ast.unparse(f) == "self._parse" and len(e.args) == 1 and len(e.keywords) == 1 \
                 and e.keywords[0].arg is None and isinstance(e.keywords[0].value, ast.Name) and e.keywords[0].value.id == "kwargs":
             t, ty = self.E(e.args[0], pre)
@@ -758,6 +793,7 @@ class Tr:
             pos = isinstance(op, ast.Is)
             if tl in ("Nat", "Int", "Tok", "Dec"): return (not pos), ("none", "None")
             if tl == "None": return pos, ("none", "None")
+            if tl == "TzData": return "(%s %s PM.TzData.noneVal)" % (l, "=" if pos else "≠"), ("none", "None")
             if tl == "Label": return "(%s %s PM.Label.none)" % (l, "=" if pos else "≠"), ("none", "None")
             if tl in ("OptNat", "OptInt", "OptTok", "OptFloat", "OptBool", "OptRes", "OptToks"): return "(%s %s none)" % (l, "=" if pos else "≠"), ("none", "None")
             raise Untranslatable("is None on %s" % tl)
@@ -1525,6 +1561,8 @@ PARSER_SPECS = [
     PFn("parser._parse_hms", "parseHms", [("idx", "Nat"), ("tokens", "Toks"), ("info", "Info"), ("hms_idx", "OptNat")],
         "NatOptPair", self_type="Parser", locals_={"hms": "OptNat", "new_idx": "Nat"}),
     PFn("parser._build_naive", "buildNaive", [("res", "Res"), ("default", "DT")], "DT", self_type="Parser"),
+    PFn("parser._build_tzinfo", "buildTzinfo", [("tzinfos", "TzInfos"), ("tzname", "OptTok"), ("tzoffset", "OptInt")], "TzObj",
+        self_type="Parser", locals_={"tzinfo": "TzObj"}),
     PFn("parser._assign_tzname", "assignTzname", [("dt", "FoldDt"), ("tzname", "OptTok")], "FoldDt", self_type="Parser"),
     # ---- _ymd
     PFn("_ymd.could_be_day", "ymd_couldBeDay", [("value", "Dec")], "Bool", self_type="Ymd", inlines=YMD_PROPS),
